@@ -69,6 +69,7 @@ class Mod:
         self.classes: list[str] = []       # local/imported class names usable in annotations
         self.public: list[str] = []        # top-level public names (candidates for __all__)
         self.leaf: set[str] = set()        # public names nothing else refers to (may be left out of __all__)
+        self.final_classes: set[str] = set()   # classes that cannot be subclassed (enums with members, …)
         self.features: list[str] = []
         self.n = 0
 
@@ -320,9 +321,10 @@ class Mod:
             elif k == "init":
                 t, ds, _ = self.ty()
                 t2, ds2, _ = self.ty()
+                a1, a2, a3 = self.fresh("ia"), self.fresh("ib"), self.fresh("_ic")
                 self.emit(f"{indent}def __init__(self, a: {t}, b: {t2}{' = ' + r.choice(ds2) if ds2 else ''}, c=1) -> None:",
-                          f"{indent}    self.a = a", f"{indent}    self.b: {t2} = b", f"{indent}    self._c = c",
-                          f"{indent}    self.count = 0")
+                          f"{indent}    self.{a1} = a", f"{indent}    self.{a2}: {t2} = b", f"{indent}    self.{a3} = c",
+                          f"{indent}    self.{self.fresh('count')} = 0")
             elif k == "nested" and indent == "    ":
                 nn = self.fresh("Inner")
                 self.emit(f"{indent}class {nn}:", f"{indent}    tag: int = 0")
@@ -334,8 +336,8 @@ class Mod:
         bases = []
         k = r.random()
         abstract = False
-        if k < 0.2 and self.classes:
-            bases.append(r.choice([c for c in self.classes]))
+        if k < 0.2 and [c for c in self.classes if c not in self.final_classes]:
+            bases.append(r.choice([c for c in self.classes if c not in self.final_classes]))
         elif k < 0.3:
             bases.append("abc.ABC")
             self.extra_imports.append("import abc")
@@ -458,6 +460,7 @@ class Mod:
         if r.random() < 0.4:
             self.func(self.fresh("emeth"), "    ", "self")
         self.classes.append(n)
+        self.final_classes.add(n)
         self.public.append(n)
 
     def f_namedtuple(self) -> None:
